@@ -30,6 +30,18 @@
  *      (c12-<kind>-<op>), a valid op whose result differs from the reference (…-ref), public and private view
  *      disagree (…-inconsistent), a crash in a forked probe (…-crash).
  * Known findings are reported with their own signatures (kf-c12-…).
+ *   4. "left exactly as it was" is decided on the representation the caller can observe, not only on the sorted contents: before
+ *      every op on a container / String a snapshot (`Rep`) is taken of (a) len, (b) the values read through get, (c) the order in
+ *      which iteration yields the elements (keys), (d) the addresses get / iteration / c_str hand out (a reference obtained before a
+ *      refused call must stay valid), and white-box (e) the capacity / slot count and the backing block.  When the op raises and
+ *      the contents are what they were, the snapshots are compared: `X sig=c12-refused-reordered` (c), `sig=c12-refused-moved-storage`
+ *      (d), `sig=c12-refused-capacity` (e), `sig=c12-refused-len` (a).  One reading is built in: a container that had no element
+ *      storage at all (0 slots, NULL block, no elements: a Table emptied by resize(t, 0)) and acquires its first block during a
+ *      refused call has lost nothing a caller could hold — reported as an `I` line (Table_Set allocates the first slot before
+ *      Table_Set_Move casts; `C12_table_slots_refuted`).
+ *      The O line of a Table carries `mv=1` when the op replaced the slot array (`t->data` differs from before the call:
+ *      Table_Rehash allocates the new block before it frees the old one, Table_Clear leaves NULL), which the model predicts
+ *      (`Tab.moves`).
  * Range/Slice `get` runs first in a forked child: a signed overflow in Range_Get (undefined behaviour, the defect repaired by
  * fix 81e7452) kills the child under UBSan and is reported as an ordinary violation (c12-range-get-crash).
  * A Range takes any int64 start / stop / step for which Range_Len itself does not overflow (range_len_ok). */
@@ -132,6 +144,7 @@ typedef struct {
   Shadow* sh;
   int ek; NShadow* nsh;                 /* nested container: element kind 'a' 'l' 't', reference contents */
   unsigned char junk_img[64];           /* junk object: image of header + body taken at construction */
+  var data0;                            /* Table: `t->data` before the op being executed (at construction: the first block) */
 } HObj;
 #define NOBJ 64
 static HObj objs[NOBJ];
@@ -253,7 +266,7 @@ static void dump_wb(HObj* h, Dump* d) {
       sprintf(d->head, "T %s n=%d", alloc_name((int)(intptr_t)header(h->obj)->alloc), n); seq_tail(d->tail, tv, n); break; }
     case K_TAB: { struct Table* t = h->obj; int n = 0;
       for (size_t i = 0; i < t->nslots && n < MAXN; i++) if (Table_Key_Hash(t, i)) { rd(Table_Key(t, i), &tk[n]); rd(Table_Val(t, i), &tv[n]); n++; }
-      sprintf(d->head, "H %s %s n=%zu", type_label(t->ktype), type_label(t->vtype), t->nitems); sprintf(d->extra, " slots=%zu", t->nslots);
+      sprintf(d->head, "H %s %s n=%zu", type_label(t->ktype), type_label(t->vtype), t->nitems); sprintf(d->extra, " slots=%zu mv=%d", t->nslots, t->data != h->data0);
       map_tail(d->tail, tk, tv, n); break; }
     case K_TRE: { struct Tree* m = h->obj; int n = tree_walk(m, m->root, 0);
       sprintf(d->head, "R %s %s n=%zu", type_label(m->ktype), type_label(m->vtype), m->nitems); map_tail(d->tail, tk, tv, n); break; }
@@ -378,6 +391,97 @@ static void nshadow_sync(HObj* h) {
   else { struct List* l = h->obj; for (var it = l->head; it && ns->n < MAXNEST; it = *List_Next(l, it)) cval_read(it, h->ek, &ns->e[ns->n++]); }
 }
 
+/* ------------------------------------------------------------------------------------------------ representation snapshot
+ * What the caller of a refused operation can still hold and look at.  Through the public interface: (a) len, (b) the values
+ * read through get, (c) the order in which iteration yields the elements (the keys of a Table / Tree), (d) the addresses that
+ * iteration and get (c_str for a String) return — references handed out before the call.  White-box: (e) capacity / slot count
+ * and the backing block (Array data, Table data, Tuple items, String val; first node of a List, root of a Tree). */
+#if defined(__has_feature)
+# if __has_feature(address_sanitizer)
+#  include <sanitizer/asan_interface.h>
+#  define V_FREED(p) ((p) != NULL && __asan_address_is_poisoned(p))
+# endif
+#endif
+#ifndef V_FREED
+# define V_FREED(p) 0
+#endif
+typedef struct {
+  int ok;                                  /* the public interface answered while the snapshot was taken */
+  size_t len; int n;                       /* len(); elements recorded (at most MAXN) */
+  HVal itv[MAXN]; var itp[MAXN];           /* iteration order: value (key) and address of each element */
+  HVal gv[MAXN]; var gp[MAXN];             /* get(i) / get(key i): value and address */
+  int has_cap; size_t cap; var block;      /* white-box */
+} Rep;
+static Rep rep0, rep1;
+static int rep_kind(int kind) { return kind == K_ARR || kind == K_LST || kind == K_TUP || kind == K_TAB || kind == K_TRE || kind == K_STR || kind == K_NARR || kind == K_NLST; }
+static const char* cap_word(int kind) { return kind == K_TAB ? "slots" : "capacity"; }
+
+static void rep_take(HObj* h, Rep* r) {
+  r->ok = 0; r->len = 0; r->n = 0; r->has_cap = 0; r->cap = 0; r->block = NULL;
+  if (!rep_kind(h->kind)) return;
+  switch (h->kind) {
+    case K_ARR: case K_NARR: { struct Array* a = h->obj; r->has_cap = 1; r->cap = a->nslots; r->block = a->data; break; }
+    case K_TAB: { struct Table* t = h->obj; r->has_cap = 1; r->cap = t->nslots; r->block = t->data; break; }
+    case K_TUP: r->block = ((struct Tuple*)h->obj)->items; break;
+    case K_STR: r->block = ((struct String*)h->obj)->val; break;
+    case K_LST: case K_NLST: r->block = ((struct List*)h->obj)->head; break;
+    case K_TRE: r->block = ((struct Tree*)h->obj)->root; break;
+  }
+  var exc = NULL; volatile int n = 0; volatile size_t L = 0;
+  if (h->kind == K_STR) {
+    V_TRY(exc, { L = len(h->obj); r->gp[0] = r->itp[0] = c_str(h->obj); });
+    memset(&r->itv[0], 0, sizeof(HVal)); memset(&r->gv[0], 0, sizeof(HVal)); n = 1;
+  } else if (h->kind == K_TAB || h->kind == K_TRE) {
+    V_TRY(exc, {
+      L = len(h->obj);
+      foreach (key in h->obj) {
+        if (n < MAXN) { rd(key, &r->itv[n]); r->itp[n] = key; var kc = mk(&r->itv[n]); var v = get(h->obj, kc); rd(v, &r->gv[n]); r->gp[n] = v; }
+        n++; if (n > MAXN) break; }
+    });
+  } else {
+    V_TRY(exc, {
+      L = len(h->obj);
+      foreach (it in h->obj) { if (n < MAXN) { rd(it, &r->itv[n]); r->itp[n] = it; } n++; if (n > MAXN) break; }
+      for (size_t i = 0; i < L && i < MAXN && i < (size_t)n; i++) { var e = get(h->obj, $I(i)); rd(e, &r->gv[i]); r->gp[i] = e; }
+    });
+  }
+  r->len = L; r->n = n > MAXN ? MAXN : n; r->ok = exc == NULL;
+}
+
+/* compares the snapshots taken before and after an op that raised `got` and left the (sorted) contents alone; prints one X line
+   per category that differs and returns their number */
+static int rep_compare(HObj* h, const Rep* a, const Rep* b, const char* on, const char* got, int lineno, const char* kf) {
+  const char* kn = kind_name[h->kind]; int nx = 0;
+  const char* s_len = kf ? kf : "c12-refused-len", *s_ord = kf ? kf : "c12-refused-reordered", *s_adr = kf ? kf : "c12-refused-moved-storage", *s_cap = kf ? kf : "c12-refused-capacity";
+  if (!a->ok || !b->ok) return 0;
+  if (a->len != b->len || a->n != b->n) {
+    X("sig=%s line=%d what=%s %s raised %s and len / the number of elements iteration yields changed: %zu / %d -> %zu / %d", s_len, lineno, kn, on, got, a->len, a->n, b->len, b->n);
+    return 1; }
+  int ord = -1, adr = -1, nadr = 0, freed = 0;
+  for (int i = 0; i < a->n; i++) {
+    if (ord < 0 && (!val_eq(&a->itv[i], &b->itv[i]) || !val_eq(&a->gv[i], &b->gv[i]))) ord = i;
+    if (a->itp[i] != b->itp[i] || a->gp[i] != b->gp[i]) { if (adr < 0) adr = i; nadr++; if (V_FREED(a->itp[i]) || V_FREED(a->gp[i])) freed++; }
+  }
+  if (ord >= 0) {
+    char x[64], y[64]; val_text(&a->itv[ord], x); val_text(&b->itv[ord], y);
+    X("sig=%s line=%d what=%s %s raised %s: len and contents are what they were, but iteration now yields %s at position %d where it yielded %s before the call (n=%d)", s_ord, lineno, kn, on, got, y, ord, x, a->n);
+    nx++; }
+  if (adr >= 0) {
+    char x[64]; val_text(h->kind == K_STR ? &a->gv[0] : &a->itv[adr], x);
+    X("sig=%s line=%d what=%s %s raised %s and moved the element storage: %d of %d references returned by get / iteration before the call (first: position %d, %s) are not where the element is now%s", s_adr, lineno, kn, on, got, nadr, a->n, adr, h->kind == K_STR ? "c_str" : x, freed ? "; the old storage has been freed (use after free for whoever kept a reference)" : "");
+    nx++; }
+  if ((a->has_cap && a->cap != b->cap) || a->block != b->block) {
+    if (a->has_cap && a->cap == 0 && a->block == NULL && a->len == 0)
+      I("line=%d %s %s raised %s on an object without element storage and allocated its first block (%s 0 -> %zu)", lineno, kn, on, got, cap_word(h->kind), b->cap);
+    else {
+      char capt[80] = ""; if (a->has_cap) snprintf(capt, sizeof capt, "%s %zu -> %zu, ", cap_word(h->kind), a->cap, b->cap);
+      X("sig=%s line=%d what=%s %s raised %s and replaced the backing store: %sblock %s%s", s_cap, lineno, kn, on, got, capt,
+        a->block != b->block ? "reallocated" : "kept", a->block != b->block && V_FREED(a->block) ? " (old block freed)" : "");
+      nx++; }
+  }
+  return nx;
+}
+
 /* ------------------------------------------------------------------------------------------------ ops */
 enum { OP_GET, OP_SET, OP_MEM, OP_REM, OP_PUSH, OP_PUSHAT, OP_POP, OP_POPAT, OP_RESIZE, OP_LEN, OP_CONCAT, OP_APPEND, OP_ASSIGN,
        OP_PRINT, OP_TYPEOF, OP_CAST, OP_DEALLOC, OP_DEALLOCELEM, OP_GETK, OP_GETV, OP_SORT, OP_ASSIGNSELF, OP_NOPS };
@@ -451,7 +555,7 @@ static const char* obj_type_name(HObj* h) {
  * ref_apply computes, on the reference state, what the documented behaviour of the op is: returns the name of the
  * exception that must be raised (NULL = must succeed); on success updates the reference contents and fills `ret`.
  * `from_assign` is set when the failure is the element assignment of an Array push (territory of finding F15). */
-typedef struct { char text[256]; int from_assign; int no_expectation; } RefOut;
+typedef struct { char text[256]; int from_assign; int no_expectation; int fail_seg; } RefOut;   /* fail_seg: print — the format item at which the reference refuses (-1: none) */
 
 static const char* ref_index(int n, const HVal* k, int* idx) {       /* index outside [-n, n) */
   if (k->tag == 'N') return E_VALUE;
@@ -515,7 +619,7 @@ static const char* ref_print(HObj* h, Op* op, RefOut* out) {
   if (h->kind != K_STR) { if (op->nfmt == 0) { strcpy(out->text, "0"); return NULL; } return E_CLASS; }
   char buf[512]; size_t bl = 0; int ai = 0; buf[0] = 0;
   for (int i = 0; i < op->nfmt; i++) {
-    char seg[64] = "";
+    char seg[64] = ""; out->fail_seg = i;
     if (op->fkind[i] == 'L') strcpy(seg, op->ftext[i]);
     else {
       if (ai >= op->nargs) return E_FORMAT;
@@ -527,6 +631,7 @@ static const char* ref_print(HObj* h, Op* op, RefOut* out) {
     if (nonheap(h)) return E_VALUE;
     bl += (size_t)snprintf(buf + bl, sizeof buf - bl, "%s", seg);
   }
+  out->fail_seg = -1;
   if (op->nfmt == 0) { sprintf(out->text, "%ld", op->n); return NULL; }
   Shadow* s = h->sh; s->str[op->n] = 0; snprintf(s->str + op->n, sizeof s->str - op->n, "%s", buf);
   sprintf(out->text, "%zu", (size_t)op->n + bl);
@@ -546,7 +651,7 @@ static int ref_homogeneous(Shadow* s) {
 
 static const char* ref_apply(HObj* h, Op* op, RefOut* out) {
   Shadow* s = h->sh; int idx = 0, at = -1; const char* e;
-  out->text[0] = 0; out->from_assign = 0; out->no_expectation = 0;
+  out->text[0] = 0; out->from_assign = 0; out->no_expectation = 0; out->fail_seg = -1;
   if (h->kind == K_JUNK) return E_VALUE;     /* Type_Of refuses the header before anything else is looked at */
   if (op->code == OP_SORT) {
     /* documented: Array and Tuple are sortable; the items end up in ascending order.  Items that cannot be compared with one another:
@@ -843,6 +948,7 @@ static int do_new(int id, char** w, int nw, int lineno) {   /* w: tokens after t
     else if (v.tag == 'i') { struct Int* x = fake_obj(Int, sizeof(struct Int), h.alloc); x->val = v.i; h.obj = x; }
     else { struct Plain* x = fake_obj(Plain, sizeof(struct Plain), h.alloc); x->n = v.i; h.obj = x; }
   } else return 0;
+  if (h.kind == K_TAB) h.data0 = ((struct Table*)h.obj)->data;
   objs[id] = h;
   return 1;
 }
@@ -916,10 +1022,12 @@ static int poisons_nest(HObj* h, Op* op, int failed, int from_assign) {
   if (op->code == OP_SET) return 1;
   return h->kind == K_NARR && (op->code == OP_PUSH || op->code == OP_APPEND || op->code == OP_PUSHAT);
 }
-static int poisons(HObj* h, Op* op, int raised) {
+static int poisons(HObj* h, Op* op, int raised, int from_assign) {
   int cont = h->kind == K_ARR || h->kind == K_LST || h->kind == K_TAB || h->kind == K_TRE;
   if (cont && op->code == OP_ASSIGN) return 1;
-  if (h->kind == K_ARR && h->ty == 's' && raised && (op->code == OP_PUSH || op->code == OP_APPEND || op->code == OP_PUSHAT)) return 1;
+  /* an Array of String whose push / push_at was refused at the element assignment holds a String without buffer (F15); a push_at
+     refused for its *position* has touched nothing and the history goes on */
+  if (h->kind == K_ARR && h->ty == 's' && raised && (op->code == OP_PUSH || op->code == OP_APPEND || (op->code == OP_PUSHAT && from_assign))) return 1;
   if (h->kind == K_ARR && op->code == OP_CONCAT && raised) return 1;
   return 0;
 }
@@ -961,6 +1069,8 @@ static void run_line(char* l, int lineno) {
   /* 1. before: public dump */
   Dump pub0, pub1, wb1, ref1;
   int pub0_ok = dump_pub(h, &pub0);
+  rep_take(h, &rep0);
+  if (h->kind == K_TAB) h->data0 = ((struct Table*)h->obj)->data;
   /* 2. reference */
   RefOut ro; const char* want = ref_apply(h, &op, &ro);
   /* 3. the real call.  Whatever the reference expects to fail (and Range/Slice get, whose index arithmetic can overflow)
@@ -970,7 +1080,7 @@ static void run_line(char* l, int lineno) {
   if (risky && probe_crashes(h->obj, h, &op)) { crashed = 1; strcpy(res, "ub"); n_crashed++; }
   else exc = do_call(h->obj, h, &op, res);
   n_ops++; if (exc) { n_raised++; count_exc(v_exc_name(exc)); }
-  int dies = NEST(h) ? poisons_nest(h, &op, exc != NULL || crashed, ro.from_assign) : poisons(h, &op, exc != NULL || crashed);
+  int dies = NEST(h) ? poisons_nest(h, &op, exc != NULL || crashed, ro.from_assign) : poisons(h, &op, exc != NULL || crashed, ro.from_assign);
   /* 4. after */
   if (dies) { O("%s | dead", res); }
   else { dump_wb(h, &wb1); O("%s | %s%s%s", res, wb1.head, wb1.extra, wb1.tail); }
@@ -1032,6 +1142,13 @@ static void run_line(char* l, int lineno) {
       if (sig) X("sig=%s line=%d what=%s %s raised %s and changed the object: `%s%s` -> `%s%s`", sig, lineno, kn, on, got, pub0.head, pub0.tail, pub1.head, pub1.tail);
       else X("sig=c12-%s-%s line=%d what=%s raised and the object changed: `%s%s` -> `%s%s`", kn, on, lineno, got, pub0.head, pub0.tail, pub1.head, pub1.tail);
       n_x++; if (h->sh || h->nsh) shadow_sync(h);
+    } else if (pub0_ok && pub1_ok) {
+      /* (c)/(d)/(e) the contents are what they were: is the representation the caller can observe? */
+      rep_take(h, &rep1);
+      /* F29: a print_to refused after its first segment has run String_Format_To (realloc) for the segments before it — also when
+         the text written happens to equal the text it replaced */
+      const char* kf = h->kind == K_STR && code == OP_PRINT && ro.fail_seg > 0 ? "kf-c12-print-partial" : NULL;
+      n_x += (size_t)rep_compare(h, &rep0, &rep1, on, got, lineno, kf);
     }
   }
   if (h->sh || h->nsh) {
